@@ -662,10 +662,11 @@ class Connection(object):
         return self._local_root
 
     def _handle_del(self, obj, count=1):  # request handler
-        if type(count) is not int:
+        if type(count) is not int or count < 1:
             # anything else is compared and subtracted while the table's (non-reentrant) lock is held; a proxy or an
-            # object with its own __gt__/__rsub__ would run peer- or user-controlled code there
-            raise TypeError("count must be an int")
+            # object with its own __gt__/__rsub__ would run peer- or user-controlled code there.  A release gives
+            # back at least one reference: zero or a negative count would RAISE the stored count and pin the object
+            raise TypeError("count must be a positive int")
         self._local_objects.decref(get_id_pack(obj), count)
 
     def _handle_repr(self, obj):  # request handler
